@@ -22,6 +22,9 @@ fn str_strategy(_: &Ctx) -> BoxedStrategy<StrCase> {
         6 => gen::ascii_any(4096),
         2 => gen::from_alphabet("abcXYZ/._019 -_AbCdEfGhIjKlMnOpQrStUvWxYz", 0, 200),
         1 => gen::from_alphabet("aA", 0, 64),
+        // strings that read like something else: number literals of every common spelling, with and without blanks,
+        // terminators or suffixes around them (a hash is a function of the bytes, whatever they spell)
+        2 => (prop::sample::select(vec!["", "0x", "0X", "#", "0b", "0o", "-", "+", "$", "&H", "g_", "0", " ", "\\x", "%"]), gen::from_alphabet("0123456789abcdefABCDEF", 0, 10), prop::sample::select(vec!["", "", "", " ", "\0", "\n", "h", "u", "f", ".0", "e3", "\r\n"])).prop_map(|(a, b, c)| format!("{}{}{}", a, b, c)),
     ];
     (s, vec(any::<u16>(), 0..8)).prop_map(|(s, flips)| StrCase { s, flips }).boxed()
 }
@@ -125,6 +128,28 @@ fn prop_shader_crc(c: &StrCase, ctx: &Ctx) -> PResult {
     Ok(())
 }
 
+/// every spelling of a small number literal: prefix x all hex strings of 1..3 digits (both letter cases), plus 8-digit ones
+fn literal_enum(_: &Ctx) -> Vec<StrCase> {
+    let mut out = vec![];
+    for prefix in ["0x", "0X", "#", "", "-", "0b", "0o", "$"] {
+        for digits in [&b"0123456789abcdef"[..], &b"0123456789ABCDEF"[..]] {
+            for n in 1..=3usize {
+                for v in 0..16usize.pow(n as u32) {
+                    let body: String = (0..n).rev().map(|k| digits[(v >> (4 * k)) & 15] as char).collect();
+                    out.push(StrCase { s: format!("{}{}", prefix, body), flips: vec![] });
+                }
+            }
+            for v in [0u32, 1, 0xffff_ffff, 0x8000_0000, 0x7fff_ffff, 0xdead_beef, 0x0012_3456, 0xedb8_8320, 0x04c1_1db7] {
+                let body: String = (0..8).rev().map(|k| digits[((v >> (4 * k)) & 15) as usize] as char).collect();
+                out.push(StrCase { s: format!("{}{}", prefix, body), flips: vec![] });
+                out.push(StrCase { s: format!("{}{:x}", prefix, v), flips: vec![] });
+                out.push(StrCase { s: format!("{}{}", prefix, v), flips: vec![] });
+            }
+        }
+    }
+    out
+}
+
 /// A batch of files, each described by (length, fill seed); contents are a deterministic function of both.
 #[derive(Clone, Debug, Serialize, Deserialize)]
 pub struct FilesCase {
@@ -222,7 +247,7 @@ fn prop_sha1(c: &FilesCase, ctx: &Ctx) -> PResult {
 pub fn property() -> Property {
     Property {
         id: "C12",
-        rule: "path-hash / shader-crc: ASCII strings (all 128 code points, both cases, length 0..4096) generated by proptest and compared with a bit-at-a-time CRC; letter-case flips must not change the path hash; the same for the path hashes an index (folder / file-name pair) and an index2 (full path) object computes with calculate_hash. sha1: files of every length 0..300 (0..1100 thorough) enumerated, plus random batches with lengths forced onto every padding boundary (55/56/63/64/119/120 mod 64) up to 256 KiB (4 MiB thorough), hashed through FileInfo::new and compared with a straight FIPS 180-4 implementation. Non-trivial: CRC input of length >= 2 containing a letter; SHA-1 input of length >= 56 (needs length padding to spill into a second block). Distinct by content hash.",
+        rule: "path-hash / shader-crc: ASCII strings (all 128 code points, both cases, length 0..4096) generated by proptest and compared with a bit-at-a-time CRC (one string in eleven spells a number literal - 0x.., #.., 0b.., signs, suffixes, terminators - and every such spelling of 1..3 hex digits is enumerated); letter-case flips must not change the path hash; the same for the path hashes an index (folder / file-name pair) and an index2 (full path) object computes with calculate_hash. sha1: files of every length 0..300 (0..1100 thorough) enumerated, plus random batches with lengths forced onto every padding boundary (55/56/63/64/119/120 mod 64) up to 256 KiB (4 MiB thorough), hashed through FileInfo::new and compared with a straight FIPS 180-4 implementation. Non-trivial: CRC input of length >= 2 containing a letter; SHA-1 input of length >= 56 (needs length padding to spill into a second block). Distinct by content hash.",
         assumptions: &["own CRC and SHA-1 validated against published check values at start-up", "Unicode lower-casing equals ASCII lower-casing on the ASCII inputs generated"],
         pre: None,
         post: None,
@@ -230,6 +255,8 @@ pub fn property() -> Property {
             Box::new(Part { name: "path-hash", driver: Driver::Gen(str_strategy, 1_200_000, 9_600_000), prop: prop_path_hash, exhaustive: false }),
             Box::new(Part { name: "index-hash", driver: Driver::Gen(str_strategy, 600_000, 4_800_000), prop: prop_index_hash, exhaustive: false }),
             Box::new(Part { name: "shader-crc", driver: Driver::Gen(str_strategy, 600_000, 4_800_000), prop: prop_shader_crc, exhaustive: false }),
+            Box::new(Part { name: "shader-crc-literals", driver: Driver::Enum(literal_enum), prop: prop_shader_crc, exhaustive: true }),
+            Box::new(Part { name: "path-hash-literals", driver: Driver::Enum(literal_enum), prop: prop_path_hash, exhaustive: true }),
             Box::new(Part { name: "sha1-every-length", driver: Driver::Enum(sha_enum), prop: prop_sha1, exhaustive: true }),
             Box::new(Part { name: "sha1-random", driver: Driver::Gen(sha_strategy, 4_500, 36_000), prop: prop_sha1, exhaustive: false }),
         ],
